@@ -35,9 +35,10 @@ func init() {
 		Classify: classify,
 		Parallel: true,
 		Shrink:   shrink,
+		Extras:   extras(),
 		Assumptions: []string{
 			"Go int treated as unbounded (no input near 2^63 bytes)",
-			"strconv.AppendUint, unicode/utf8 and unicode/utf16 behave as modelled (compared on every run through Format/Parse)",
+			"strconv.AppendUint, unicode/utf8 and unicode/utf16 behave as modelled: unicode/utf8 compared with the Lean prelude exhaustively on every run (extra utf8-prelude-exhaustive-tie); AppendUint/utf16 compared through Format and Parse of every code point and every escape value (extra all-scalars-and-escapes)",
 			"private parseUint/appendUint are only reachable through the exported codecs; they are tied through them",
 		},
 	})
@@ -51,18 +52,21 @@ type codecFns struct {
 	parse      func(dst, src []byte) int
 	parseStr   func(string) string
 	parseBytes func([]byte) string
+	// the other instantiation of the two generic Format functions (string in / []byte in)
+	formatS    func(string) []byte
+	formatStrB func([]byte) string
 }
 
 func fns(k string) *codecFns {
 	switch k {
 	case "octal":
-		return &codecFns{strz.OctalFormat[[]byte], strz.OctalFormatToString[string], strz.OctalParse, strz.OctalParseToString[string], strz.OctalParseToString[[]byte]}
+		return &codecFns{strz.OctalFormat[[]byte], strz.OctalFormatToString[string], strz.OctalParse, strz.OctalParseToString[string], strz.OctalParseToString[[]byte], strz.OctalFormat[string], strz.OctalFormatToString[[]byte]}
 	case "hex":
-		return &codecFns{strz.HexFormat[[]byte], strz.HexFormatToString[string], strz.HexParse, strz.HexParseToString[string], strz.HexParseToString[[]byte]}
+		return &codecFns{strz.HexFormat[[]byte], strz.HexFormatToString[string], strz.HexParse, strz.HexParseToString[string], strz.HexParseToString[[]byte], strz.HexFormat[string], strz.HexFormatToString[[]byte]}
 	case "unicode":
-		return &codecFns{strz.UnicodeFormat[[]byte], strz.UnicodeFormatToString[string], strz.UnicodeParse, strz.UnicodeParseToString[string], strz.UnicodeParseToString[[]byte]}
+		return &codecFns{strz.UnicodeFormat[[]byte], strz.UnicodeFormatToString[string], strz.UnicodeParse, strz.UnicodeParseToString[string], strz.UnicodeParseToString[[]byte], strz.UnicodeFormat[string], strz.UnicodeFormatToString[[]byte]}
 	case "utf16":
-		return &codecFns{strz.Utf16Format[[]byte], strz.Utf16FormatToString[string], strz.Utf16Parse, strz.Utf16ParseToString[string], strz.Utf16ParseToString[[]byte]}
+		return &codecFns{strz.Utf16Format[[]byte], strz.Utf16FormatToString[string], strz.Utf16Parse, strz.Utf16ParseToString[string], strz.Utf16ParseToString[[]byte], strz.Utf16Format[string], strz.Utf16FormatToString[[]byte]}
 	}
 	return nil
 }
@@ -113,9 +117,17 @@ func impl(c core.Case) []string {
 			var out string
 			switch {
 			case t[0] == "format" && len(t) == 2:
-				out = hx(f.format(in))
+				o := f.format(in)
+				if o2 := f.formatS(string(in)); !bytes.Equal(o, o2) {
+					return "form-mismatch" // XxxFormat[[]byte] and XxxFormat[string] disagree
+				}
+				out = hx(o)
 			case t[0] == "formatstr" && len(t) == 2:
-				out = hx([]byte(f.formatStr(string(in))))
+				o := f.formatStr(string(in))
+				if o2 := f.formatStrB(in); o != o2 {
+					return "form-mismatch" // XxxFormatToString[string] and [[]byte] disagree
+				}
+				out = hx([]byte(o))
 			case t[0] == "parse" && len(t) == 3:
 				n, err := strconv.Atoi(t[2])
 				if err != nil || n < 0 {
@@ -311,6 +323,9 @@ func check(c core.Case, out []string) *core.Failure {
 		}
 		if out[i] == "input-modified" {
 			return fail("input-modified", "the call wrote into its input")
+		}
+		if out[i] == "form-mismatch" {
+			return fail("form-mismatch", "the []byte and the string instantiation of the generic function return different results")
 		}
 		switch t[0] {
 		case "format", "formatstr":
